@@ -1410,6 +1410,7 @@ class Engine(object):
             return [(st, ("call", b.path, tuple(self.val(st, a) for a in args)))]
         h = self.prims.lookup(name, trait_name)
         if h is not None:
+            self._cur_cfid = cfid
             return h(self, st, name, args, site, depth, t)
         if t is not None and t.get("res_kind") in ("unresolved", "virtual") and args:
             # a workspace trait method called through a type parameter or `dyn Trait`: dispatch on what the receiver is
